@@ -548,7 +548,10 @@ type c14Case struct {
 	e2     c14Eval // rewritten, second evaluation
 	dyn    bool
 
-	clockSplit string // several different 'now' values within one statement
+	variantFail string // another draw of the replaced values gives a text that does not parse / evaluates to another shape
+	variantOut  string
+	nvariants   int
+	clockSplit  string // several different 'now' values within one statement
 	ordIn      int    // random()/randomblob() calls inside ORDER BY terms, input
 	ordOut     int    // ... output
 }
@@ -663,6 +666,9 @@ func (c *c14Case) emit(w *vWriter) {
 	if len(c.excl) > 0 {
 		vc.Tags = append(vc.Tags, "excluded-form")
 	}
+	if c.nvariants > 0 {
+		vc.Tags = append(vc.Tags, "other-draws-checked")
+	}
 	if c.dyn {
 		vc.Tags = append(vc.Tags, "dynamic")
 		if c.e1.Err != "" {
@@ -681,6 +687,10 @@ func (c *c14Case) emit(w *vWriter) {
 	case c.tree != nil && c.otree == nil:
 		vc.OracleFail = fmt.Sprintf("the replicated text is not parsed by the parser that printed it: %q -> %q", c.in.SQL, c.out)
 		vc.Sig = "C14:output-unparsable"
+	case c.variantFail != "":
+		vc.OracleFail = fmt.Sprintf("with other values for its random() calls the statement is replicated as %q (%s); sent: %q", c.variantOut, c.variantFail, c.in.SQL)
+		vc.Sig = "C14:meaning-changed:variant"
+		c.out = c.variantOut
 	case c.clockSplit != "":
 		vc.OracleFail = fmt.Sprintf("'now' has several values within one statement (%s): %q", c.clockSplit, c.in.SQL)
 		vc.Sig = "C14:now-differs-within-statement"
@@ -706,9 +716,22 @@ func (c *c14Case) emit(w *vWriter) {
 	if vc.OracleFail != "" && strings.HasPrefix(vc.Sig, "C14:meaning-changed") && c14NullPrec.MatchString(c.in.SQL) {
 		vc.Sig = "C14:reprint-changes-binding:postfix-null-test"
 	}
-	if vc.OracleFail != "" && (strings.HasPrefix(vc.Sig, "C14:meaning-changed") || vc.Sig == "C14:output-unparsable") && c14MinusMinus.MatchString(c.in.SQL) && strings.Contains(c.out, "--") {
-		vc.Sig = "C14:reprint-joins-minus-signs"
-		vc.Coq = "" // the output is no longer the statement the model predicts, and cannot be parsed back
+	if vc.OracleFail != "" && (strings.HasPrefix(vc.Sig, "C14:meaning-changed") || vc.Sig == "C14:output-unparsable") && c14CommentMarker(c.out) {
+		// a comment marker appeared. The known printer finding is the one that appears when the statement is printed
+		// as parsed, without any rewriting (a negated negative literal in the text as sent); anything else is new.
+		printedAsParsed := ""
+		func() {
+			defer func() { recover() }()
+			if st, err := rsql.NewParser(strings.NewReader(c.in.SQL)).ParseStatement(); err == nil {
+				printedAsParsed = st.String()
+			}
+		}()
+		if c14CommentMarker(printedAsParsed) {
+			vc.Sig = "C14:reprint-joins-minus-signs"
+			vc.Coq = "" // the output is no longer the statement the model predicts, and cannot be parsed back
+		} else {
+			vc.Sig = "C14:meaning-changed:rewritten-literal-breaks-syntax"
+		}
 	}
 	if c.multi && vc.OracleFail != "" {
 		vc.Sig = "C14:multi-statement-string:" + same
@@ -880,7 +903,11 @@ func (g *c14Gen) pred(d int, nd bool) string {
 
 func (g *c14Gen) expr(d int, nd bool) string {
 	if d <= 0 {
-		if g.p(45) {
+		if g.p(12) {
+			g.tags["unary-on-call"] = true
+			return g.pick("-", "- ", "+", "NOT ", "~", "-") + g.listed(0, nd)
+		}
+		if g.p(40) {
 			return g.listed(0, nd)
 		}
 		return g.atom()
@@ -901,6 +928,10 @@ func (g *c14Gen) expr(d int, nd bool) string {
 		return g.expr(d-1, nd) + g.pick(" = ", " <> ", " != ", " < ", " >= ", " IS ", " IS NOT ", " == ") + g.expr(d-1, nd)
 	case k < 17:
 		return g.expr(d-1, nd) + g.pick(" AND ", " OR ") + g.expr(d-1, nd)
+	case k < 18 && g.p(50):
+		// a unary operator directly on a listed call: the literal that replaces the call is printed right after the operator
+		g.tags["unary-on-call"] = true
+		return g.pick("-", "- ", "+", "NOT ", "~", "-", "-") + g.listed(d-1, nd)
 	case k < 18:
 		// the operand is parenthesised: the printer writes "- -7" as "--7", which starts a comment (known finding, see the corpus)
 		return g.pick("- ", "NOT ", "+", "~") + "(" + g.expr(d-1, nd) + ")"
@@ -1150,6 +1181,9 @@ var c14Corpus = []string{
 	// re-rendering a postfix NULL test without parentheses changes the binding of the operator after it (known finding)
 	`INSERT INTO t(a, b) VALUES (1 ISNULL % 'z', strftime('%s', '2001-01-01'))`,
 	`SELECT id, date('2001-01-01') FROM t WHERE 'x' IS NOT NULL > 1`,
+	// unary operators directly on replaced calls
+	`INSERT INTO t(a) VALUES (-random())`, `INSERT INTO t(a, b) VALUES (-random() % 1000, abs(-RANDOM()))`, `UPDATE t SET a = - random(), b = ~random()`,
+	`INSERT INTO t(a, b) VALUES (NOT random(), +random())`, `INSERT INTO t(a, b) VALUES (-julianday('now'), -randomblob(4))`,
 	// re-rendering joins two minus signs into a comment marker (known finding)
 	`INSERT INTO t(a, b) VALUES (- -7, date('2001-01-01'))`,
 	// several statements in one string (known finding: everything after the first statement is dropped)
@@ -1158,6 +1192,94 @@ var c14Corpus = []string{
 }
 
 // ---------------------------------------------------------------- test
+
+// c14CommentMarker reports whether text contains "--" outside string literals and quoted identifiers
+func c14CommentMarker(text string) bool {
+	var q byte
+	for i := 0; i < len(text); i++ {
+		ch := text[i]
+		switch {
+		case q != 0:
+			if ch == q {
+				q = 0
+			}
+		case ch == '\'' || ch == '"' || ch == '`':
+			q = ch
+		case ch == '-' && i+1 < len(text) && text[i+1] == '-':
+			return true
+		}
+	}
+	return false
+}
+
+// the values random() may be replaced by, taken from the tree under test: the rewriter's own generator is sampled, and
+// the boundaries of the range it shows (negative ones only if it produces negative numbers) are injected besides fresh draws
+var c14RandBounds []int64
+
+func c14ProbeRand() {
+	rw := NewRewriter()
+	neg := false
+	for i := 0; i < 256; i++ {
+		if rw.randFn() < 0 {
+			neg = true
+		}
+	}
+	c14RandBounds = []int64{0, math.MaxInt64}
+	if neg {
+		c14RandBounds = append(c14RandBounds, -1, math.MinInt64)
+	}
+}
+
+// c14Variants: the same statement with other values drawn for its random() calls (fresh draws through Process, and the
+// boundaries of the generator's range through the Rewriter) must still be text the parser reads back, and — where a
+// replaced call stands directly under a unary operator, and on a sample of the others — evaluate to the original's shape
+func c14Variants(d *db.DB, c *c14Case, unary bool, sample bool) {
+	var texts []string
+	if unary {
+		for i := 0; i < 5; i++ {
+			st := []*proto.Statement{{Sql: c.in.SQL}}
+			if Process(st, c.in.RwRand, c.in.RwTime) == nil {
+				texts = append(texts, st[0].Sql)
+			}
+		}
+	}
+	for _, v := range c14RandBounds {
+		v := v
+		func() {
+			defer func() { recover() }()
+			parsed, err := rsql.NewParser(strings.NewReader(c.in.SQL)).ParseStatement()
+			if err != nil {
+				return
+			}
+			rw := NewRewriter()
+			rw.RewriteRand, rw.RewriteTime = c.in.RwRand, c.in.RwTime
+			rw.randFn = func() int64 { return v }
+			out, mod, _, err := rw.Do(parsed)
+			if err != nil || !mod {
+				return
+			}
+			texts = append(texts, statementString(out))
+		}()
+	}
+	for _, tx := range texts {
+		c.nvariants++
+		if c14Parse(tx) == nil {
+			c.variantFail, c.variantOut = "not parsed by the parser that printed it", tx
+			return
+		}
+		if !(unary || sample) {
+			continue
+		}
+		if strings.Contains(tx, strconv.FormatInt(math.MinInt64, 10)) && strings.Contains(strings.ToLower(c.in.SQL), "abs") {
+			continue // abs(-9223372036854775808) overflows in SQLite itself
+		}
+		ev := c14Run(d, tx, c.fq)
+		if df := c14Compare(c.eo, ev, false); df != "" {
+			c.variantFail, c.variantOut = df, tx
+			return
+		}
+	}
+}
 
 func c14Batch(t *testing.T, w *vWriter, d *db.DB, ins []c14Input, tags [][]string) {
 	cases := make([]*c14Case, len(ins))
@@ -1172,6 +1294,22 @@ func c14Batch(t *testing.T, w *vWriter, d *db.DB, ins []c14Input, tags [][]strin
 			}
 			if try == 0 { // a clock field may have wrapped between Process and the evaluation: once more
 				c = c14Process(ins[i], tags[i])
+			}
+		}
+		if c.dyn && c.tree != nil {
+			hasRandom, unary := false, false
+			for _, n := range c.nondet {
+				if strings.HasPrefix(n, "random:") {
+					hasRandom = true
+				}
+			}
+			for _, t := range c.tags {
+				if t == "unary-on-call" || t == "corpus" {
+					unary = true
+				}
+			}
+			if hasRandom {
+				c14Variants(d, c, unary, i%7 == 0)
 			}
 		}
 		cases[i] = c
@@ -1198,6 +1336,7 @@ func TestVerif_C14(t *testing.T) {
 			t.Fatalf("schema %s: %v %v", s, err, r)
 		}
 	}
+	c14ProbeRand()
 	if raw := vReplayInput(); raw != nil {
 		var in c14Input
 		if err := json.Unmarshal(raw, &in); err != nil {
